@@ -118,6 +118,14 @@ const MATE_IN_ONE: &[&str] = &[
     // half-move clock beyond 100 at the root (nothing stops a game there; the parser accepts any clock)
     "4k3/8/8/8/8/8/8/R3K3 w - - 101 130",
     "r3k3/8/8/8/8/8/8/4K3 b - - 150 130",
+    // a capture whose capture-only continuation mates two plies later is NOT a mate in one (honest mate distance in the extension)
+    "r2r2k1/5ppp/8/8/8/8/3R4/3R2K1 w - - 0 1",
+    "3b2k1/1p3ppp/n7/8/8/8/4B3/3R2K1 w - - 0 1",
+    "3r2k1/3r4/8/8/8/8/5PPP/R2R2K1 b - - 0 1",
+    "3r2k1/4b3/8/8/8/N7/1P3PPP/3B2K1 b - - 0 1",
+    // the only mate is a quiet move of a piece that also has a capture
+    "6k1/5ppp/8/8/8/8/7K/1b2R3 w - - 0 1",
+    "1B2r3/7k/8/8/8/8/5PPP/6K1 b - - 0 1",
     // stalemate tricks and under-promotion mates
     "5k2/5P2/5K2/8/8/8/8/8 w - - 0 1",
     "7k/5P2/6K1/8/8/8/8/8 w - - 0 1",
@@ -293,6 +301,10 @@ fn threshold_roots(rng: &mut Rng, n: usize) -> Vec<Board> {
         "7k/8/8/8/2bn4/8/4P3/K7 b - - 0 1", "k7/4p3/8/2BN4/8/8/8/7K w - - 0 1",
         "7k/8/8/2B5/2b5/8/4P3/K7 b - - 0 1", "k7/4p3/8/2B5/2b5/8/8/7K w - - 0 1",
         "7k/8/8/8/8/2n5/3PB3/K7 b - - 0 1", "k7/3pb3/2N5/8/8/8/8/7K w - - 0 1",
+        // inside the tree a pawn on its 7th rank gets pinned by a bishop on the promotion rank and can only capture it with promotion
+        "QRN5/RK6/P7/8/2B3p1/7k/6p1/8 w - - 0 1", "8/6P1/7K/2b3P1/8/p7/rk6/qrn5 b - - 0 1",
+        // mates in two / being mated after one's own move: mate distances below the root, both colours
+        "7k/8/5K2/8/8/8/8/R7 w - - 0 1", "r7/8/8/8/8/5k2/8/7K b - - 0 1",
     ];
     let mut v: Vec<Board> = fixed.iter().filter_map(|s| s.parse().ok()).collect();
     let mut tries = 0;
